@@ -313,6 +313,12 @@ def one(seed, i, res, tape):
         if raw_d.__name__ != raw_u.__name__ or raw_d.__doc__ != "doc of target":
             problems.append(("metadata", None, "__name__/__doc__ not preserved: %r %r" % (raw_d.__name__, raw_d.__doc__)))
         try:
+            # what tools that do not follow __wrapped__ see (inspect.getfullargspec, getcallargs-based decorators stacked on top)
+            if inspect.getfullargspec(raw_d)[:6] != inspect.getfullargspec(raw_u)[:6]:
+                problems.append(("signature", None, "getfullargspec %s became %s" % (inspect.getfullargspec(raw_u)[:6], inspect.getfullargspec(raw_d)[:6])))
+        except BaseException as e:
+            problems.append(("signature", None, "inspect.getfullargspec raised %r" % (e,)))
+        try:
             if str(inspect.signature(raw_d)) != str(inspect.signature(raw_u)):
                 problems.append(("signature", None, "signature %s became %s" % (inspect.signature(raw_u), inspect.signature(raw_d))))
         except BaseException as e:
@@ -343,7 +349,15 @@ def one(seed, i, res, tape):
             ou = ("raise", e)
         before = len(tape.entries)
         try:
-            if rng.random() < 0.2:
+            r_ctx = rng.random()
+            if r_ctx > 0.8:
+                # the call is made from fallback / clean-up code inside an except block: another, unrelated exception is being handled
+                res["counters"]["calls_while_handling_another_exception"] = res["counters"].get("calls_while_handling_another_exception", 0) + 1
+                try:
+                    raise KeyError("unrelated, being handled by the caller")
+                except KeyError:
+                    rd = dec(*copy.deepcopy(args), **copy.deepcopy(kwargs))
+            elif r_ctx < 0.2:
                 # the caller is inside an action that was started with a logger object of its own: the decorated call still logs
                 # through the default logger to the registered destinations
                 from vf.interp import _Sink
